@@ -1,10 +1,41 @@
-/- driver handler for component Logic: requests whose first token belongs to it -/
+/- driver handler: logic-level requests (frame closure) -/
 import Ptx.Wire
+import Ptx.Sem.Frames
 namespace Ptx.Drv.Logic
+open Ptx
+
+def frameOf : String → Option FrameKind
+  | "K" => some .K | "D" => some .D | "T" => some .T | "S4" => some .S4 | "S5" => some .S5 | _ => none
+
+def parsePairs (s : String) : Option (List (Nat × Nat)) :=
+  (s.splitOn ";").filter (· ≠ "") |>.mapM fun p =>
+    match p.splitOn "." with
+    | [a, b] => do some (← a.toNat?, ← b.toNat?)
+    | _ => none
+
+def parseNats (s : String) : Option (List Nat) := (s.splitOn ",").filter (· ≠ "") |>.mapM (·.toNat?)
+
+def showPairs (R : List (Nat × Nat)) : String :=
+  ";".intercalate (R.map fun (a, b) => s!"{a}.{b}")
+
+/-- insertion sort on pairs, for a canonical answer -/
+def sortPairs (R : List (Nat × Nat)) : List (Nat × Nat) :=
+  R.foldl (fun acc p =>
+    let (lo, hi) := acc.partition (fun q => q.1 < p.1 || (q.1 == p.1 && q.2 < p.2))
+    lo ++ [p] ++ hi) []
+
+def frameClosure (k ws ps : String) : String :=
+  match frameOf k, parseNats ws, parsePairs ps with
+  | some k, some ws, some R =>
+      if Frames.stable k ws R then "ok " ++ showPairs (sortPairs (Frames.closure k ws R))
+      else "err:unstable"
+  | _, _, _ => "err:wire"
 
 /-- `none` = not my request -/
 def handle (ts : List String) : Option String :=
   match ts with
+  | ["frameclosure", k, ws] => some (frameClosure k ws "")
+  | ["frameclosure", k, ws, ps] => some (frameClosure k ws ps)
   | _ => none
 
 end Ptx.Drv.Logic
